@@ -3,13 +3,14 @@
 # Confirms a sub-agent's seeded defect against /repo HEAD in a scratch worktree (removed afterwards):
 #   demo passes on the clean tree, fails with the patch; with --tests the existing suite (baseline command) passes with the patch
 #   apart from the 4 tests that need network access (they fail on the unchanged tree too).
+#   CONFIRM_REV=<commit> confirms against that commit instead of HEAD (for a seed that a later fix: commit made visible to the existing suite)
 # Writes <confirm dir>/<Cxx>_<k>.json
 set -u
 ID="$1"; K="$2"; TESTS="${3:-}"; OUT="${4:-/tmp/wt/out/$ID}"
 CF=${CONFIRM_DIR:-/tmp/wt/confirm}
 W=/tmp/scratch_cf_${ID}_${K}_$$
 mkdir -p "$CF"
-git -C /repo worktree add --detach "$W" HEAD >/dev/null 2>&1 || { echo "worktree failed"; exit 3; }
+git -C /repo worktree add --detach "$W" "${CONFIRM_REV:-HEAD}" >/dev/null 2>&1 || { echo "worktree failed"; exit 3; }
 cp "$OUT/demo_$K.py" "$W/demo_seed.py"
 cd "$W"
 HEADREV=$(git rev-parse --short HEAD)
